@@ -44,6 +44,15 @@ def _free_vars(t):
     return out
 
 
+class OpaqueBlocks:
+    """block sizes of one axis of a Dask array: not modelled, may only be handed back to Dask"""
+    def __init__(self, axis):
+        self.axis = axis
+
+    def __repr__(self):
+        return f"<blocks of axis {self.axis}>"
+
+
 class StubsLib(StubsBase):
     def __init__(self):
         super().__init__()
@@ -388,7 +397,7 @@ class StubsLib(StubsBase):
             "asanyarray": Stub(self.np_asarray, "np.asanyarray"),
             "array": Stub(self.np_array, "np.array"),
             "zeros": Stub(lambda c, shape, dtype=DType("float64"): A.zeros(c, shape, self.to_dtype(dtype)), "np.zeros"),
-            "arange": Stub(lambda c, n: A.arange(c, n), "np.arange"),
+            "arange": Stub(lambda c, n, dtype=None: A.arange(c, n) if dtype is None else A.astype(c, A.arange(c, n), self.to_dtype(dtype)), "np.arange"),
             "take": Stub(lambda c, a, index, axis=None: self.np_take(c, a, index, axis), "np.take"),
             "stack": Stub(lambda c, arrs, axis=0: self.np_stack(c, arrs, axis), "np.stack"),
             "concatenate": Stub(lambda c, arrs, axis=0: self.np_concatenate(c, arrs, axis), "np.concatenate"),
@@ -824,6 +833,15 @@ class StubsLib(StubsBase):
             return Stub(pers, "da.Array.persist")
         if name == "rechunk":
             return Stub(lambda c, *x, **k: SArr(a.shape, a.elem, a.dtype, "dask"), "da.Array.rechunk")
+        if name == "map_blocks" and a.backend == "dask":
+            mb = self.ext["dask.array"].attrs["map_blocks"] if hasattr(self.ext["dask.array"], "attrs") else None
+            if mb is not None:
+                return Stub(lambda c, func, *x, **k: mb.fn(c, func, a, *x, **k), "da.Array.map_blocks")
+        if a.backend == "dask" and name == "chunks":
+            # the chunk structure itself is opaque: one token per axis, usable only to be passed on (chunks=...)
+            return tuple(OpaqueBlocks(i) for i in range(a.ndim))
+        if a.backend == "dask" and name in ("numblocks", "chunksize", "blocks", "dask", "name", "npartitions", "map_overlap", "partitions"):
+            raise Unsupported(f"dask.array.Array.{name}: the chunk structure is not part of the model")
         return None
 
     def np_reshape(self, ctx, a, shape):
@@ -917,7 +935,20 @@ class StubsLib(StubsBase):
             if isinstance(x, SArr):
                 return x if x.backend == "dask" else SArr(x.shape, x.elem, x.dtype, "dask")
             raise Unsupported("da.asanyarray operand")
+        def task_name_rule(c, op, k):
+            """Dask identifies a task by its key: two collections with the same name in one graph are ONE computation.
+            A name the code supplies itself must therefore be determined by the content it names (embed a
+            dask.base.tokenize of it); names Dask derives (name=None, token=prefix) always are."""
+            nm = k.pop("name", None)
+            k.pop("token", None)
+            if nm is not None:
+                from .interp import FStr
+                c.note("model: an explicit Dask task name must embed a token of the content (key collisions merge tasks)")
+                c.oblige(f"dask.{op}.task-name-determined-by-content", bool(isinstance(nm, FStr) and nm.token), "safety",
+                         {"name": str(nm), "why": "a fixed or parameter-only name collides for different data in one graph"})
+
         def from_delayed(c, value, shape=None, dtype=None, **k):
+            task_name_rule(c, "from_delayed", k)
             c.note("stub:da.from_delayed(delayed f(*args)) denotes f(*args), evaluated lazily; declared shape/dtype are trusted by dask")
             if not isinstance(value, SArr):
                 raise Unsupported("from_delayed of a non-array value")
@@ -935,7 +966,8 @@ class StubsLib(StubsBase):
             c.note("stub:da.map_blocks(f, x) = f applied block-wise, equal to f(x) for element-wise / un-chunked-axis f; lazy")
             if not isinstance(x, SArr) or x.backend != "dask":
                 raise Unsupported("map_blocks operand")
-            for k in ("dtype", "chunks", "drop_axis", "new_axis", "meta", "name", "token"):
+            task_name_rule(c, "map_blocks", kw)
+            for k in ("dtype", "chunks", "drop_axis", "new_axis", "meta"):
                 kw.pop(k, None)
             r = self.interp.call(func, (SArr(x.shape, x.elem, x.dtype, "numpy"),) + tuple(a), kw, c)
             if not isinstance(r, SArr):
@@ -951,7 +983,10 @@ class StubsLib(StubsBase):
             "fft": NS("dask.array.fft", {}),
         })
         self.ext["dask.array"] = da
-        self.ext["dask"] = NS("dask", {"array": da, "delayed": Stub(delayed, "dask.delayed")})
+        from .interp import FStr
+        base = NS("dask.base", {"tokenize": Stub(lambda c, *a, **k: FStr("<token>", True), "dask.base.tokenize")})
+        self.ext["dask.base"] = base
+        self.ext["dask"] = NS("dask", {"array": da, "delayed": Stub(delayed, "dask.delayed"), "base": base})
 
     def instantiate_hook(self, ci, ext_bases):
         if any("SpecificTypeQuantity" in str(b) or str(b).endswith("Quantity") for b in ext_bases):
